@@ -288,3 +288,46 @@ def check_match_protection(chk, ix):
         chk.fail(Finding("S7", "behave.matchers:MatchWithError.run", "no raise",
                          "MatchWithError.run does not raise the stored conversion error", file=mw.module.relpath,
                          line=mw.node.lineno))
+
+
+
+WHAT["S8"] = "continue_after_failed_step is a switch of the Scenario CLASS (documented: set it in before_all): scenarios that were parsed before it was set follow it"
+
+
+def check_continue_switch_is_class_level(chk, ix):
+    """S8: a Scenario built by its own __init__, then Scenario.continue_after_failed_step set on the class (as a
+    before_all hook does, after the features were parsed): the scenario reads the new value."""
+    chk.rule("S8", WHAT["S8"])
+    scc = ix.cls("behave.model:Scenario")
+    init = scc.lookup("__init__")
+    if init is None:
+        raise AnalysisError("anchor missing: Scenario.__init__")
+    it = Interp(ix, stubs={"copy.copy": lambda i, s_, a, k, n: [(s_, "val", a[0])], "os.getcwd": lambda i, s_, a, k, n: [(s_, "val", "/cwd")],
+                           "make_relpath_if_possible": lambda i, s_, a, k, n: [(s_, "val", a[0])],
+                           "FileLocation": lambda i, s_, a, k, n: [(s_, "val", "LOC:%s:%s" % (a[0], a[1] if len(a) > 1 else None))]},
+                name="Scenario.__init__ + class switch")
+    it.int_sat = 100
+    it.list_cap = 100
+    st = State()
+    st.frames = []
+    me = st.alloc(HObj(scc, {}, label="scenario"))
+    try:
+        outs = it.call_function(st, init, ["x.feature", 3, "Scenario", "a name"], {}, None, self_val=me)
+    except AnalysisError as e:
+        raise AnalysisError("Scenario.__init__ not evaluable: %s" % e)
+    chk.absorb(it)
+    if len(outs) != 1 or outs[0][1] != "val":
+        raise AnalysisError("Scenario.__init__ not evaluable: %r" % [(k, v) for _, k, v in outs][:3])
+    cur = outs[0][0]
+    for value in (True, False):
+        chk.instance("S8")
+        o2 = it.set_attr(cur, ClassVal(scc), "continue_after_failed_step", value, None)
+        cur = o2[0][0]
+        got = it.get_attr(cur, me, "continue_after_failed_step", None)
+        if len(got) == 1 and got[0][1] == "val" and got[0][2] is value:
+            chk.ok("S8", {"Scenario.continue_after_failed_step set on the class to": value, "an existing scenario reads": value}, nontrivial_key=value)
+        else:
+            chk.fail(Finding("S8", init.fullname, "class switch %s -> instance reads %r" % (value, [(k, v) for _, k, v in got][:2]),
+                             "after Scenario.continue_after_failed_step = %s (set on the class, as documented for before_all) a scenario that was "
+                             "parsed earlier reads %r: the switch has no effect on the features of the run" % (value, [(k, v) for _, k, v in got][:2]),
+                             file=init.file, line=init.lineno, stmt="def __init__"))
